@@ -33,6 +33,10 @@ func main() {
 		os.Exit(2)
 	}
 	p.LoadS = time.Since(start).Seconds()
+	if *dump == "panics" {
+		dumpPanicSites(p)
+		return
+	}
 	if *dump == "closures" {
 		dumpClosures(p)
 		return
